@@ -4,8 +4,8 @@ import (
 	"fmt"
 )
 
-func (g *gen) push()  { g.f.scopes = append(g.f.scopes, nil) }
-func (g *gen) pop()   { g.f.scopes = g.f.scopes[:len(g.f.scopes)-1] }
+func (g *gen) push() { g.f.scopes = append(g.f.scopes, nil) }
+func (g *gen) pop()  { g.f.scopes = g.f.scopes[:len(g.f.scopes)-1] }
 func (g *gen) add(v *vinfo) *vinfo {
 	top := len(g.f.scopes) - 1
 	for _, o := range g.f.scopes[top] {
@@ -127,7 +127,23 @@ func (g *gen) genBlock(maxN int) ([]*Node, bool) {
 	defer g.pop()
 	g.f.depth++
 	defer func() { g.f.depth-- }()
-	return g.genStmts(maxN)
+	tp := g.tracePoint()
+	st, term := g.genStmts(maxN)
+	if tp != nil {
+		st = append([]*Node{tp}, st...)
+	}
+	return st, term
+}
+
+// tracePoint returns a statement that folds a fresh constant into the path trace of the function (or nil).
+func (g *gen) tracePoint() *Node {
+	if g.f.trace == "" || g.f.inLambda || !g.chance(60) {
+		return nil
+	}
+	g.f.traceCtr++
+	g.account(1)
+	t := vr(g.f.trace)
+	return &Node{K: "assign", S: "=", A: []*Node{t, bin("%", bin("+", bin("*", vr(g.f.trace), ilit(7)), ilit(int64(g.f.traceCtr))), ilit(1000003))}}
 }
 
 func (g *gen) genStmts(maxN int) ([]*Node, bool) {
@@ -533,7 +549,9 @@ func (g *gen) pureOKTarget(t *Node) bool {
 func (g *gen) ownPtr(v *vinfo) bool { return false }
 
 func (g *gen) stSliceElem() *Node {
-	v := g.pickVar("[]int", func(v *vinfo) bool { return g.writable(v) && (v.minLen > 0 || g.hasIdx(v)) && (!g.f.pure || !g.isParam(v)) })
+	v := g.pickVar("[]int", func(v *vinfo) bool {
+		return g.writable(v) && (v.minLen > 0 || g.hasIdx(v)) && (!g.f.pure || !g.isParam(v))
+	})
 	if v == nil {
 		return nil
 	}
@@ -1129,6 +1147,14 @@ func (g *gen) stReturn() *Node {
 	}
 	if g.f.named && g.chance(50) {
 		g.mark("bare-return")
+		if g.f.trace != "" && !g.f.inLambda {
+			for _, r := range g.f.results {
+				if r.Type == "int" {
+					mix := &Node{K: "assign", S: "=", A: []*Node{vr(r.Name), bin("%", bin("+", vr(r.Name), vr(g.f.trace)), ilit(1000003))}}
+					return &Node{K: "seq", B: []*Node{mix, n}}
+				}
+			}
+		}
 		return n
 	}
 	old := g.f.noPanic
@@ -1143,6 +1169,12 @@ func (g *gen) stReturn() *Node {
 		}
 		if r.Type == "int" {
 			e = fitStore(e)
+			if g.f.trace != "" && !g.f.inLambda {
+				e = ex{n: bin("%", bin("+", e.n, vr(g.f.trace)), ilit(1000003)), lo: -1000002, hi: 1000002, pan: e.pan, hard: e.hard}
+			}
+		}
+		if r.Type == "bool" && g.f.trace != "" && !g.f.inLambda {
+			e = ex{n: bin("!=", e.n, bin("==", bin("%", vr(g.f.trace), ilit(2)), ilit(0))), pan: e.pan, hard: e.hard}
 		}
 		if r.Type == "string" && e.maxLen > strRes {
 			e = g.shortStr()
@@ -1353,7 +1385,9 @@ func (g *gen) stDefer() *Node {
 	}
 	if !rec || g.chance(60) {
 		st, _ := g.genStmts(2)
-		if g.chance(50) {
+		// statements in front of the recover() call may leave the literal early (return, panic): then nothing is
+		// recovered in Go, while the compiled code swallows the panic (finding defer-swallows-panic)
+		if g.chance(50) && (!rec || g.on(kDeferSwallow)) {
 			body = append(st, body...)
 		} else {
 			body = append(body, st...)
@@ -1409,10 +1443,20 @@ func (g *gen) stContainer() *Node {
 				v.appends += k * g.f.mult
 				n := &Node{K: "append", A: []*Node{vr(v.name)}}
 				for i := 0; i < k; i++ {
+					if i > 0 {
+						// Go evaluates all arguments first; the compiled code appends one by one, so a later
+						// argument reading the slice would see the elements appended before it
+						if g.on(kAppendArgs) {
+							g.mark("append-args-read-slice")
+						} else {
+							v.hidden = true
+						}
+					}
 					e := fitStore(g.genInt(2))
 					g.noteExpr(e)
 					n.A = append(n.A, e.n)
 				}
+				v.hidden = false
 				g.mark("append")
 				return &Node{K: "assign", S: "=", A: []*Node{vr(v.name), n}}
 			}
